@@ -68,6 +68,8 @@ type Options struct {
 	Kinds []string
 	// Store lets the caller adjust each node's config store.
 	Store func(i int, id *m.Address, s *config.Store)
+	// LabelFn overrides the label generator (uniqueness per node is still enforced).
+	LabelFn func(tp *core.Tape) m.SwitchLabel
 	// IdentKind selects the identity range.
 	IdentKind ident.Kind
 }
@@ -243,7 +245,9 @@ func Build(e *core.Env, o Options) *Mesh {
 	}
 	label := func(i int) m.SwitchLabel {
 		var l m.SwitchLabel
-		if o.TwoByteLabels && tp.Chance(1, 3) {
+		if o.LabelFn != nil {
+			l = o.LabelFn(tp)
+		} else if o.TwoByteLabels && tp.Chance(1, 3) {
 			l = m.SwitchLabel(128 + tp.Intn(16383-128+1))
 			e.Probe("label_2_bytes")
 		} else {
@@ -253,7 +257,7 @@ func Build(e *core.Env, o Options) *Mesh {
 		// runs out yields zeros and must still terminate.
 		for used[i][l] || l == 0 {
 			l++
-			if l > 16383 {
+			if l == 0 {
 				l = 1
 			}
 		}
